@@ -93,11 +93,12 @@ def handler_src(prog, part, m, in_trait):
     """Signature (trait) or echo implementation of one handler."""
     ctx_ty, ctx_fn = CTX[m["kind"]]
     params = "".join(", %s: %s" % (a["n"], TYPES[a["t"]][0]) for a in m["args"])
-    ret = (m.get("resp") or "QResp") if m["kind"] == "query" else "Response"
+    ret = (m.get("ret") or m.get("resp") or "QResp") if m["kind"] == "query" else "Response"       # what the handler returns
     explicit = m["kind"] == "query" and m.get("explicit")
-    attr = "#[sv::msg(%s%s)]" % (m["kind"], (", resp=%s" % ret) if explicit else "")
+    aliased = explicit and m.get("sig", "alias") == "alias"
+    attr = "#[sv::msg(%s%s)]" % (m["kind"], (", resp=%s" % m["resp"]) if explicit else "")
     if in_trait:
-        if explicit:        # an aliased result type: the response type can only come from `resp=`
+        if aliased:        # an aliased result type: the response type can only come from `resp=`
             return "        %s\n        fn %s(&self, ctx: %s%s) -> QResultB<Self::Error>;\n" % (attr, m["name"], ctx_ty, params)
         return "        %s\n        fn %s(&self, ctx: %s%s) -> Result<%s, Self::Error>;\n" % (
             attr, m["name"], ctx_ty, params, ret)
@@ -108,7 +109,7 @@ def handler_src(prog, part, m, in_trait):
         mutc += "        rec::touch_funds(ctx.deps.storage, &ctx.info.funds);\n"
     fin = (("rec::qresp_b" if ret == "QRespB" else "rec::qresp") if m["kind"] == "query" else "rec::resp") + '("%s", %d, %s)' % (m["name"], m["code"], ok)
     err = "HandlerErr" if part["id"] == "own" else "ContractError"   # interfaces share the contract's error type
-    rty = ("QResultB<" + err + ">") if explicit else ("Result<%s, " % ret + err + ">")
+    rty = ("QResultB<" + err + ">") if aliased else ("Result<%s, " % ret + err + ">")
     return ("    fn %s(&self, ctx: %s%s) -> " + rty.replace("%", "%%") + " {\n"
             "        rec::handler(\"%s\", \"%s\", \"%s\", \"%s\", vec![%s], rec::%s(&ctx));\n"
             "%s        %s\n    }\n") % (m["name"], ctx_ty, params, prog["id"], part["id"], m["name"], m["kind"], args, ctx_fn, mutc, fin)
@@ -150,6 +151,8 @@ def remote_src(prog):
         for m in part["methods"]:
             if m["kind"] not in ("exec", "query"):
                 continue
+            if m["kind"] == "query" and m.get("ret") != m.get("resp"):
+                continue        # the helper decodes the declared type, the handler returns another one
             for val, handle in ((0, "contract"), (1, "dyn" if part["id"] != "own" else "contract")):
                 n += 1
                 lets = "".join("let %s: %s = %s; " % (a["n"], TYPES[a["t"]][0], TYPES[a["t"]][1][val_ix(val, i)][0])
@@ -325,6 +328,33 @@ def mt_src(prog):
     return "".join(o)
 
 
+def override_src(prog):
+    """User-supplied entry point functions for the overridden kinds (they record their own invocation)."""
+    if not prog.get("overrides"):
+        return ""
+    o = ["    pub mod ov {\n        use super::*;\n        use sylvia::cw_std::{Deps as StdDeps, DepsMut};\n        use verif_rrt::OvMsg;\n"]
+    for k in prog["overrides"]:
+        name = "ov_" + k
+        if k == "query":
+            o.append("        pub fn query(deps: StdDeps, env: Env, _msg: OvMsg) -> Result<Binary, ContractError> {\n"
+                     "            rec::handler(\"%s\", \"override\", \"%s\", \"query\", vec![], rec::ctx_raw(&env, deps.storage, &deps.querier, None));\n"
+                     "            Ok(sylvia::cw_std::to_json_binary(&QResp { h: \"%s\".to_string(), code: 0 })?)\n        }\n" % (prog["id"], name, name))
+        elif k in ("exec", "instantiate"):
+            o.append("        pub fn %s(deps: DepsMut, env: Env, info: MessageInfo, _msg: OvMsg) -> Result<Response, ContractError> {\n"
+                     "            rec::handler(\"%s\", \"override\", \"%s\", \"%s\", vec![], rec::ctx_raw(&env, deps.storage, &deps.querier, Some(&info)));\n"
+                     "            rec::touch(deps.storage, \"%s\");\n"
+                     "            Ok(Response::new().add_attribute(\"h\", \"%s\").add_attribute(\"code\", \"0\").set_data(b\"%s\"))\n        }\n" % (
+                         k, prog["id"], name, k, name, name, name))
+        else:
+            o.append("        pub fn %s(deps: DepsMut, env: Env, _msg: OvMsg) -> Result<Response, ContractError> {\n"
+                     "            rec::handler(\"%s\", \"override\", \"%s\", \"%s\", vec![], rec::ctx_raw(&env, deps.storage, &deps.querier, None));\n"
+                     "            rec::touch(deps.storage, \"%s\");\n"
+                     "            Ok(Response::new().add_attribute(\"h\", \"%s\").add_attribute(\"code\", \"0\").set_data(b\"%s\"))\n        }\n" % (
+                         k, prog["id"], name, k, name, name, name))
+    o.append("    }\n\n")
+    return "".join(o)
+
+
 def variant_of_part(part):
     return "Ctr" if part["id"] == "own" else part["id"].capitalize()
 
@@ -349,6 +379,7 @@ def program_src(prog):
         for m in p["methods"]:
             o.append("    " + handler_src(prog, p, m, True).replace("\n        ", "\n            "))
         o.append("        }\n    }\n\n")
+    o.append(override_src(prog))
     o.append("    pub struct Ctr;\n\n")
     for p in ifaces:
         tr = p["id"].capitalize()
@@ -359,6 +390,8 @@ def program_src(prog):
     o.append("    #[sylvia::entry_points]\n    #[sylvia::contract]\n    #[sv::error(ContractError)]\n")
     for p in ifaces:
         o.append("    #[sv::messages(%s as %s)]\n" % (p["id"], p["id"].capitalize()))
+    for k in prog.get("overrides", []):
+        o.append("    #[sv::override_entry_point(%s=ov::%s(verif_rrt::OvMsg))]\n" % (k, k))
     o.append("    impl Ctr {\n        pub const fn new() -> Self {\n            Ctr\n        }\n")
     for m in own["methods"]:
         o.append("        #[sv::msg(%s%s)]\n" % (m["kind"], (", resp=%s" % m["resp"]) if (m["kind"] == "query" and m.get("explicit")) else ""))
@@ -423,7 +456,7 @@ def program_src(prog):
     if with_mt:
         o.append(mt_src(prog))
     parts = ", ".join('"%s"' % p["id"] for p in prog["parts"])
-    o.append("    pub fn vt() -> ProgVt {\n        ProgVt { id: \"%s\", lists, decode_wrapper, decode_part, decode_struct, call_ep, call_mt, encode_events, schema_events: Some(schema_events), parts: &[%s], remote_events: Some(remote_events), mt_histories: %s }\n    }\n" % (pid, parts, "Some(mt_histories)" if with_mt else "None"))
+    o.append("    pub fn vt() -> ProgVt {\n        ProgVt { id: \"%s\", lists, decode_wrapper, decode_part, decode_struct, call_ep, call_mt, encode_events, schema_events: Some(schema_events), parts: &[%s], remote_events: %s, mt_histories: %s }\n    }\n" % (pid, parts, "None" if prog.get("overrides") else "Some(remote_events)", "Some(mt_histories)" if with_mt else "None"))
     o.append("}\n")
     return "".join(o)
 
